@@ -146,8 +146,8 @@ CHECKS = {
     "C20": {
         "scenarios": [{"name": "amount"}, {"name": "codec"}],
         "accept": ["amount:", "codec:"],
-        "technique": "Lean: model of the four fat2 JSON decoders over a token tree (which key fills which field, null / duplicate / case-folded keys, ticker and amount decoding, expected-length accounting); soundness of the length accounting proved (accepted => exactly the expected keys, once each, on every level: accepted_only_in_canonical_form); input without a type refused (the repaired defect 85f24f7); amount parser exact or rejecting; decoded-level shape (one input address, int64, transfers xor conversion, input = sum). Tie: every generated document (canonical, 16 byte-level mutation kinds, 6 000 structure-level fuzzed trees per run) through fat2 and through the model's decoders on the token tree; independent canonical-form checker; re-encode round trip; cmd.FactoidToFactoshi vs the model",
-        "assumptions": ["byte-level JSON acceptance (duplicate / unknown keys) is outside the Lean model: decided by the differential codec scenario only"],
+        "technique": "Lean: reencoding_round_trips — decBatch (encBatch v txs) = (v, txs) for every batch the model of the fat2 encoders accepts (ValidData, tickers inside the table), every way of writing addresses, every uint64 amount; shipped_tickers_round_trip: the regenerated 62-name table meets the hypotheses (kernel-decided). Tie: the encoder model against json.Marshal on every decoded batch of the codec scenario (driver command `encode`). Lean: model of the four fat2 JSON decoders over a token tree (which key fills which field, null / duplicate / case-folded keys, ticker and amount decoding, expected-length accounting); soundness of the length accounting proved (accepted => exactly the expected keys, once each, on every level: accepted_only_in_canonical_form); input without a type refused (the repaired defect 85f24f7); amount parser exact or rejecting; decoded-level shape (one input address, int64, transfers xor conversion, input = sum). Tie: every generated document (canonical, 16 byte-level mutation kinds, 6 000 structure-level fuzzed trees per run) through fat2 and through the model's decoders on the token tree; independent canonical-form checker; re-encode round trip; cmd.FactoidToFactoshi vs the model",
+        "assumptions": ["the text factom.FAAddress writes decodes back to the address (factom library, outside the model); strconv writes decimal (Nat.repr)", "byte-level JSON acceptance (duplicate / unknown keys) is outside the Lean model: decided by the differential codec scenario only"],
         "design_ref": "DESIGN.md §7 C20",
     },
 }
